@@ -41,6 +41,11 @@ func (*inArray) Exit(node *Node) {
 					}
 
 				string:
+					if t := n.Left.Type(); t == nil || t.Kind() != reflect.String {
+						// The lookup map is keyed by string; any other left
+						// operand must keep the element-wise comparison.
+						return
+					}
 					for _, a := range array.Nodes {
 						if _, ok := a.(*StringNode); !ok {
 							return
